@@ -32,9 +32,11 @@ R = 8.314462618
 
 
 def required(tier):
-    return ['reference-state', 'integral-wiring', 'finite-difference', 'gas-pressure', 'jump-Tb', 'jump-Tm', 'mixture-sum', 'extensive', 'mixing-term', 'mixing-never-lowers-S', 'synthetic', 'ref:l', 'ref:g', 'ref:s',
+    return (['reference-state', 'integral-wiring', 'finite-difference', 'gas-pressure', 'jump-Tb', 'jump-Tm', 'mixture-sum', 'extensive', 'mixing-term', 'mixing-never-lowers-S', 'synthetic', 'ref:l', 'ref:g', 'ref:s',
             'locked', 'locked:s', 'locked:l', 'locked:g', 'locked-equals-unlocked', 'mix-with-locked', 'setter-cycle', 'copy', 'order:Tb<Tm', 'order:Tref==T', 'wide-db', 'wide:T-limit-ends',
-            'multi-phase-sum', 'stream-sum', 'excess', 'mix:solid', 'mix:gas-pressure', 'mix:single-component', 'mix:equal-composition', 'mix:three-streams', 'mix:empty-stream']
+            'multi-phase-sum', 'stream-sum', 'excess', 'mix:solid', 'mix:gas-pressure', 'mix:single-component', 'mix:equal-composition', 'mix:three-streams', 'mix:empty-stream',
+            'history', 'hist:same-objects-rebuilt', 'hist:permuted', 'hist:replaced-object', 'hist:live-package', 'hist:flag-flipped', 'hist:pure-after-history', 'hist:src:fresh', 'hist:src:copy', 'hist:src:ids-cache']
+            + ['hist:op:' + o for o in HIST_REBUILD_OPS + HIST_INPLACE_OPS] + ['hist:form:' + f for f in HIST_OBJECT_FORMS + HIST_ID_FORMS])
 
 
 _cache = {}
@@ -607,6 +609,274 @@ def run_mix(case, rec):
         mix_streams(case, rec, th, mix, ids, ph, T, P, [case['n'], [0.0] * len(case['n'])], 'empty-stream')
 
 
+# ---------------------------------------------------------------------------------------------------------------------------------
+# (H) histories: property packages built, re-built and kept alive while the data of their member chemicals change
+HIST_POOL = ('Water', 'Ethanol', 'Methanol', 'Octane', 'Acetone', 'Toluene', 'Propanol', 'Hexane', 'Benzene', 'Butanol', 'Heptane')
+HIST_REBUILD_OPS = ('phase_ref', 'at_state', 'Tb', 'Tm', 'reset_free_energies', 'Cn-add_method', 'Hvap-add_method', 'copy_models_from', 'replace-copy', 'replace-locked-copy')   # the chemical's H/S functors are re-created
+HIST_INPLACE_OPS = ('Hfus', 'S0')                                                                                                                                       # constants pushed into the existing functors
+HIST_OBJECT_FORMS = ('from_chemicals', 'from_chemicals-compiled', 'Thermo', 'Thermo-Chemicals', 'subset', 'subset-smaller', 'extended', 'set_thermo')
+HIST_ID_FORMS = ('Thermo-ids', 'from_chemicals-ids', 'set_thermo-ids')
+_hist_base = {}
+_hist_count = [0]
+
+
+def hist_family(form):
+    """construction path of a package, as named in oracle keys (the exact form is in the witness text)"""
+    return 'subset' if form in ('subset', 'subset-smaller', 'extended') else form.split('-')[0]
+
+
+def hist_base(name):
+    """one chemical per name and process (never mutated): the source of the per-case copies and of copy_models_from"""
+    if name not in _hist_base: _hist_base[name] = tmo.Chemical(name, cache=False)
+    return _hist_base[name]
+
+
+def hist_pure(c, f, ph, T, P):
+    """current pure-component value of a package member (locked chemicals take no phase)"""
+    if f == 'Cn': return c.Cn(T) if c.locked_state else c.Cn(ph, T)
+    return getattr(c, f)(T, P) if c.locked_state else getattr(c, f)(ph, T, P)
+
+
+def hist_mutate(c, m, case, rec):
+    """apply one documented modification to a chemical; returns the chemical now occupying the slot (a new object for the replace ops)"""
+    op = m['op']
+    if op == 'phase_ref': c.phase_ref = m['ref']
+    elif op == 'at_state': c.at_state(m['ph'])
+    elif op == 'Tb':
+        Tb = round(c.Tb * m['f'], 3)
+        if not (c.Tm and c.Tm < Tb): return None
+        c.Tb = Tb
+    elif op == 'Tm':
+        Tm = round(c.Tm * m['f'], 3)
+        if not (c.Tb and Tm < c.Tb): return None
+        c.Tm = Tm; c.Sfus = c.Hfus / Tm            # the entropy of fusion is an independent constant of the chemical: keep it consistent with the new Tm
+    elif op == 'Hfus':
+        c.Hfus = round(c.Hfus * m['f'], 2); c.Sfus = c.Hfus / c.Tm
+    elif op == 'S0': c.S0 = m['v']
+    elif op == 'reset_free_energies': c.reset_free_energies()
+    elif op == 'Cn-add_method':
+        a, b = m['co']
+        model = c.Cn if c.locked_state else getattr(c.Cn, m['ph'])
+        model.add_method(f=lambda T, a=a, b=b: a + b * T, f_int=lambda T1, T2, a=a, b=b: a * (T2 - T1) + b / 2 * (T2 ** 2 - T1 ** 2),
+                         f_int_over_T=lambda T1, T2, a=a, b=b: a * math.log(T2 / T1) + b * (T2 - T1), Tmin=50., Tmax=2000.)
+        c.reset_free_energies()                      # the documented way to make new heat-capacity data effective
+    elif op == 'Hvap-add_method':
+        c.Hvap.add_method(f=lambda T, hv=m['hv']: hv, Tmin=50., Tmax=2000.)
+        c.reset_free_energies()
+    elif op == 'copy_models_from': c.copy_models_from(hist_base(m['other']), list(m['models']))
+    elif op == 'replace-copy':
+        k = c.copy(c.ID)
+        if not k.locked_state: k.phase_ref = m['ref']
+        return k
+    elif op == 'replace-locked-copy': return c.at_state(m['ph'], copy=True)
+    else: raise ValueError(op)
+    return c
+
+
+def hist_build(form, objs, slots, excess, st, case):
+    """build a property package in one of the public ways; returns (mixture, thermo or None, actual form, default-thermo flag)"""
+    mk = lambda cs: tmo.IdealMixture.from_chemicals(cs, include_excess_energies=True) if excess else None
+    if form in ('subset', 'subset-smaller', 'extended') and st['last_th'] is None: form = 'Thermo'
+    if form == 'from_chemicals': return tmo.IdealMixture.from_chemicals(objs, include_excess_energies=excess), None, form
+    if form == 'from_chemicals-compiled': return tmo.IdealMixture.from_chemicals(tmo.CompiledChemicals(objs), include_excess_energies=excess), None, form
+    if form == 'from_chemicals-ids': return tmo.IdealMixture.from_chemicals([c.ID for c in objs], include_excess_energies=excess, cache=True), None, form
+    if form == 'Thermo': th = tmo.Thermo(objs, mixture=mk(objs))
+    elif form == 'Thermo-Chemicals': th = tmo.Thermo(tmo.Chemicals(objs), mixture=mk(objs))
+    elif form == 'Thermo-ids': th = tmo.Thermo([c.ID for c in objs], mixture=mk(objs), cache=True)
+    elif form == 'subset': th = st['last_th'].subset(objs)
+    elif form == 'subset-smaller': th = st['last_th'].subset(objs)
+    elif form == 'extended': th = st['last_th'].extended([st['extra']])
+    elif form == 'set_thermo':
+        tmo.settings.set_thermo(objs, mixture=mk(objs)); th = tmo.settings.get_thermo()
+    elif form == 'set_thermo-ids':
+        tmo.settings.set_thermo([c.ID for c in objs], mixture=mk(objs), cache=True); th = tmo.settings.get_thermo()
+    else: raise ValueError(form)
+    return th.mixture, th, form
+
+
+def hist_judge(rec, pk, case, tag):
+    """every mixture clause of the property for one package against the CURRENT pure-component values of the objects it was built from"""
+    mix, chems, th = pk['mix'], pk['chems'], pk['th']
+    n = np.array([case['n'][s] for s in pk['slots']], float)
+    T, P = case['T'], case['P']
+    Rl = tmo.constants.R
+    rec.check(bool(mix.include_excess_energies) is bool(pk['excess']), 'excess', f'flag/{tag}',
+              f'package built via {pk["form"]} with include_excess_energies={pk["excess"]} (after {pk["after"]}) reports include_excess_energies={mix.include_excess_energies!r}')
+    idx = [i for i in range(len(n)) if n[i]]
+    if not idx:
+        rec.refuse('history: the package holds none of the chemicals present (empty composition): nothing to judge'); return
+    for ph in case['phases']:
+        try:
+            hs = [n[i] * hist_pure(chems[i], 'H', ph, T, P) for i in idx]; cs = [n[i] * hist_pure(chems[i], 'Cn', ph, T, P) for i in idx]; ss = [n[i] * hist_pure(chems[i], 'S', ph, T, P) for i in idx]
+            if pk['excess']:
+                hs = [h + n[i] * hist_pure(chems[i], 'H_excess', ph, T, P) for h, i in zip(hs, idx)]; ss = [s_ + n[i] * hist_pure(chems[i], 'S_excess', ph, T, P) for s_, i in zip(ss, idx)]
+            Hp, Cp, Sp = sum(hs), sum(cs), sum(ss)
+            if not all(v == v and abs(v) != float('inf') for v in (Hp, Cp, Sp)): raise ValueError('non-finite pure value')
+        except Exception:
+            rec.refuse('pure-component value unavailable in a phase after the history (incomplete data): package not judged in that phase'); continue
+        try:
+            Hm = mix.H(ph, n, T, P); Cm = mix.Cn(ph, n, T); Sm = mix.S(ph, n, T, P)
+        except Exception as e:
+            rec.exception('mixture-sum', e, what=f'package built via {pk["form"]} after {pk["after"]}: mixture H/Cn/S in phase {ph} raised {type(e).__name__}: {str(e)[:120]} although every pure value evaluates'); continue
+        hsc = max([abs(v) for v in hs] + [abs(Hm), 1.0]); csc = max([abs(v) for v in cs] + [abs(Cm), 1e-300]); ssc = max([abs(v) for v in ss] + [abs(Sm), 1.0])
+        names = [c.ID for c in chems]
+        rec.check(abs(Hm - Hp) <= 1e-12 * hsc, 'mixture-sum', f'H/{tag}', f'package of {names} built via {pk["form"]} after {pk["after"]} (excess={pk["excess"]}): mixture H({ph}) = {Hm!r} but the mole-weighted sum of the current pure values is {Hp!r}',
+                  residual=abs(Hm - Hp) / hsc)
+        rec.check(abs(Cm - Cp) <= 1e-12 * csc, 'mixture-sum', f'Cn/{tag}', f'package of {names} built via {pk["form"]} after {pk["after"]}: mixture Cn({ph}) = {Cm!r} but the mole-weighted sum of the current pure values is {Cp!r}',
+                  residual=abs(Cm - Cp) / csc)
+        # entropy: S - sum n_i s_i = -R sum n_i ln x_i (the recorded R-less, mis-signed term is classified under its recorded key)
+        x = n[n > 0] / n.sum(); nlnx = float((n[n > 0] * np.log(x)).sum()); D = Sm - Sp; tol = lambda c_: 1e-9 * abs(c_ * nlnx) + 1e-12 * ssc
+        if len(x) == 1:
+            rec.hit('mix:single-component')
+            rec.check(abs(D) <= 1e-12 * ssc, 'mixing-term', f'single-component/{tag}', f'package built via {pk["form"]} after {pk["after"]}: a single component has no mixing term, but mixture S({ph}) = {Sm!r} and n s_i = {Sp!r}')
+        elif abs(D + Rl * nlnx) <= tol(Rl): rec.ok('mixing-term', abs(D + Rl * nlnx) / ssc)
+        elif abs(D - nlnx) <= tol(1.0) and abs(nlnx) > 1e-6:
+            rec.violation('C07/mixing-term/coefficient=+1', f'mixture S - sum n_i s_i = c * sum n_i ln x_i with c = {D / nlnx!r}; the ideal mixing term requires c = -R = {-Rl} (the model adds +sum n_i ln x_i: no R, opposite sign)')
+        elif abs(nlnx) > 1e-6 or abs(D) > 1e-9 * ssc:
+            rec.violation(f'C07/mixing-term/not-composition-only/{tag}', f'package of {names} built via {pk["form"]} after {pk["after"]} (excess={pk["excess"]}): mixture S({ph}) - sum n_i s_i(current pure values) = {D!r}, '
+                                                                         f'which is neither -R sum n_i ln x_i = {-Rl * nlnx!r} nor the recorded +sum n_i ln x_i = {nlnx!r}')
+        rec.mark_nontrivial(case_hash((case['names'], pk['form'], pk['after'], pk['slots'], ph, case['n'], T, P)))
+        # the stream of the same package (explicit thermo, or the default one for settings.set_thermo)
+        if th is not None and ph == case['phases'][0]:
+            try:
+                kw = {} if pk['default'] and tmo.settings.get_thermo() is th else {'thermo': th}
+                a = tmo.Stream(None, phase=ph, T=T, P=P, **kw)
+                for c, v in zip(chems, n):
+                    if v: a.imol[c.ID] = float(v)
+                rec.check(abs(a.H - Hp) <= 1e-11 * hsc and abs(a.C - Cp) <= 1e-11 * csc, 'stream-sum', f'H-C/{tag}', f'stream of a package built via {pk["form"]} after {pk["after"]}: Stream.H = {a.H!r}, Stream.C = {a.C!r} but sum n_i H_i = {Hp!r}, sum n_i Cn_i = {Cp!r}')
+                rec.check(abs(a.S - Sm) <= 1e-11 * ssc, 'stream-sum', f'S/{tag}', f'stream of a package built via {pk["form"]} after {pk["after"]}: Stream.S = {a.S!r} but the mixture entropy of the same flows is {Sm!r}')
+            except Exception as e:
+                rec.exception('stream-sum', e, what=f'stream of a package built via {pk["form"]} after {pk["after"]} raised {type(e).__name__}: {str(e)[:120]}')
+
+
+def run_hist(case, rec):
+    """a history on one set of chemical objects: package built, member data modified through the documented setters / methods, package built again (same objects, permuted, fewer, more,
+    replaced object of the same ID, through every public construction path), older packages still alive; every package whose members' functors were not re-created since it was built is judged."""
+    rec.hit('history'); rec.hit('hist:src:' + case['src'])
+    names = case['names']; k = len(names)
+    _hist_count[0] += 1
+    uid = f"{case_hash((case['names'], case['refs0'], case['n'], case['T']))[:8]}_{_hist_count[0]}"      # IDs never seen by the chemical cache of this process (names only: nothing judged depends on them)
+    try:
+        if case['src'] == 'fresh': objs = [tmo.Chemical(nm, phase_ref=r, cache=False) for nm, r in zip(names, case['refs0'])]
+        elif case['src'] == 'copy':
+            objs = [hist_base(nm).copy(nm) for nm in names]
+            for c, r in zip(objs, case['refs0']):
+                if r != c.phase_ref: c.phase_ref = r
+        else:       # the chemical cache: IDs registered once, every later construction by ID returns the same (modified) objects
+            objs = [tmo.Chemical(f'{nm}_{uid}', search_ID=nm, phase_ref=r, cache=True) for nm, r in zip(names, case['refs0'])]
+        extra = hist_base(case['extra']).copy(case['extra'])
+    except Exception as e:
+        rec.exception('construct', e, what=f'history: creating {names} ({case["src"]}) raised {type(e).__name__}: {str(e)[:120]}'); return
+    alive = list(objs) + [extra]                       # keeps ids unique
+    ver = {id(c): 0 for c in alive}
+    st = {'last_th': None, 'extra': extra}
+    pkgs = []
+    try: prev_default = tmo.settings.get_thermo()
+    except Exception: prev_default = None
+    try:
+        last_op = 'none'
+        for si, step in enumerate(case['steps']):
+            inplace = False
+            for m in step['muts']:
+                c = objs[m['i']]
+                try: new = hist_mutate(c, m, case, rec)
+                except Exception as e:
+                    rec.refuse('history: a modification of a chemical was refused by the library (raised): history not continued'); return
+                if new is None:
+                    rec.refuse('history: Tm < Tb would not hold after the modification: step skipped'); continue
+                rec.hit('hist:op:' + m['op']); last_op = m['op']
+                if new is not c:
+                    objs[m['i']] = new; alive.append(new); ver[id(new)] = 0; rec.hit('hist:replaced-object')
+                elif m['op'] in HIST_REBUILD_OPS: ver[id(c)] += 1
+                else: inplace = True
+            form = step['build']
+            order = step['perm'] if step['perm'] else list(range(k))
+            if form == 'subset-smaller': order = [i for i in order if i != step['drop']]
+            use = [objs[i] for i in order]
+            excess = bool(step['excess']) and form in ('from_chemicals', 'from_chemicals-compiled', 'from_chemicals-ids', 'Thermo', 'Thermo-Chemicals', 'Thermo-ids', 'set_thermo', 'set_thermo-ids')
+            built = []
+            for which in ('main', 'twin') if step.get('twin') else ('main',):
+                f = form if which == 'main' else step['twin']
+                try: mix, th, f = hist_build(f, use, order, excess, st, case)
+                except Exception as e:
+                    rec.exception('construct', e, what=f'history: building a package of {[c.ID for c in use]} via {f} after {last_op} raised {type(e).__name__}: {str(e)[:120]}'); return
+                chems = list(th.chemicals) if th is not None else list(use)
+                slot_of = {c.ID: i for i, c in enumerate(objs)}; slot_of[extra.ID] = k
+                if any(c.ID not in slot_of for c in chems):
+                    rec.check(False, 'construct', f'members/{f}', f'package built via {f} from {[c.ID for c in use]} has members {[c.ID for c in chems]}'); return
+                pk = {'mix': mix, 'th': th, 'chems': chems, 'slots': [slot_of[c.ID] for c in chems], 'excess': excess if f not in ('subset', 'subset-smaller', 'extended') else False, 'form': f, 'after': last_op,
+                      'default': f.startswith('set_thermo'), 'ver': [(c, ver.setdefault(id(c), 0)) for c in chems]}
+                for c in chems:
+                    if all(c is not a for a in alive): alive.append(c)
+                if th is not None: st['last_th'] = th
+                same = [q for q in pkgs if len(q['chems']) == len(chems) and all(a is b for a, b in zip(q['chems'], chems)) and q['excess'] == pk['excess']]
+                if same and any(ver[id(c)] != v for q in same for c, v in q['ver']): rec.hit('hist:same-objects-rebuilt')       # same objects, same order, same flag as an earlier package, functors re-created in between
+                if step['perm'] and order != sorted(order): rec.hit('hist:permuted')
+                rec.hit('hist:form:' + f)
+                built.append(pk); pkgs.append(pk)
+            if step.get('flip') and built:
+                # two live packages are independent objects: switching the excess terms of one on/off says nothing about the other
+                q = built[-1]
+                q['mix'].include_excess_energies = not q['excess']; q['excess'] = not q['excess']; rec.hit('hist:flag-flipped')
+            for q in pkgs:
+                if any(ver[id(c)] != v for c, v in q['ver']):
+                    rec.refuse('history: package built before the free-energy functors of a member were re-created: not judged'); continue
+                if any(q is b for b in built): hist_judge(rec, q, case, f'history/built:{hist_family(q["form"])}')
+                elif inplace or step.get('flip') or step.get('twin'):
+                    rec.hit('hist:live-package'); hist_judge(rec, dict(q, after=f'{q["after"]}, still alive after {last_op}'), case, f'history/live:{hist_family(q["form"])}')
+    finally:
+        if prev_default is not None:
+            try: tmo.settings.set_thermo(prev_default)
+            except Exception: pass
+    # the pure-component clauses on the chemicals as the history left them
+    sub = {'Ts': case['Ts'], 'Ps': [5e4, 1e5, 1e6]}
+    for c in objs:
+        rec.hit('hist:pure-after-history')
+        if c.locked_state: check_locked(c, rec, sub, 'history')
+        else: check_pure(c, rec, dict(sub, complete=completeness(c)), 'history')
+
+
+def gen_hist(rng):
+    k = rng.choice([2, 2, 3, 3, 4])
+    names = rng.sample(list(HIST_POOL), k + 1); extra = names.pop()
+    src = rng.choice(['fresh', 'copy', 'copy', 'ids-cache'])
+    refs = [rng.choice('lllgs') for _ in names]; refs0 = list(refs); locked = [None] * k
+    steps = []
+    for s in range(rng.choice([3, 4, 4, 5])):
+        muts = []
+        if s:
+            for _ in range(rng.choice([1, 1, 2])):
+                i = rng.randrange(k)
+                op = rng.choice(['phase_ref', 'phase_ref', 'phase_ref', 'at_state', 'Tb', 'Tm', 'Hfus', 'S0', 'reset_free_energies', 'Cn-add_method', 'Hvap-add_method', 'copy_models_from', 'replace-copy', 'replace-locked-copy'])
+                if locked[i] and op in ('phase_ref', 'at_state', 'replace-locked-copy'): op = rng.choice(['reset_free_energies', 'Tb', 'Hfus'])
+                if src == 'ids-cache' and op.startswith('replace'): op = 'phase_ref' if not locked[i] else 'reset_free_energies'
+                m = {'op': op, 'i': i}
+                if op in ('phase_ref', 'replace-copy'):
+                    m['ref'] = rng.choice([q for q in 'lgs' if q != refs[i]])
+                    if not locked[i]: refs[i] = m['ref']
+                elif op in ('at_state', 'replace-locked-copy'): m['ph'] = rng.choice('llgs'); locked[i] = refs[i] = m['ph']
+                elif op == 'Tb': m['f'] = round(rng.uniform(0.93, 1.05), 4)
+                elif op == 'Tm': m['f'] = round(rng.uniform(0.97, 1.08), 4)
+                elif op == 'Hfus': m['f'] = round(rng.uniform(0.5, 2.0), 3)
+                elif op == 'S0': m['v'] = round(rng.uniform(50, 300), 3)
+                elif op == 'Cn-add_method': m['ph'] = locked[i] or rng.choice('slg'); m['co'] = [round(rng.uniform(20, 200), 3), round(rng.uniform(0, 0.3), 4)]
+                elif op == 'Hvap-add_method': m['hv'] = round(rng.uniform(1e4, 6e4), 1)
+                elif op == 'copy_models_from': m['other'] = rng.choice([q for q in HIST_POOL if q != names[i]]); m['models'] = rng.choice([['Cn'], ['Cn', 'Hvap'], ['Hvap']])
+                muts.append(m)
+        if s == 0: form = rng.choice(['Thermo', 'Thermo', 'from_chemicals', 'Thermo-Chemicals', 'set_thermo'] + (['Thermo-ids', 'Thermo-ids'] if src == 'ids-cache' else []))
+        else: form = rng.choice(list(HIST_OBJECT_FORMS) + ['from_chemicals', 'Thermo'] + (list(HIST_ID_FORMS) * 2 if src == 'ids-cache' else []))
+        perm = None
+        if rng.random() < 0.3: perm = rng.sample(range(k), k)
+        step = {'muts': muts, 'build': form, 'perm': perm, 'excess': rng.random() < 0.25, 'drop': rng.randrange(k)}
+        if rng.random() < 0.3:
+            step['twin'] = rng.choice(['from_chemicals', 'Thermo']); step['flip'] = rng.random() < 0.6
+        steps.append(step)
+    n = [0.0 if rng.random() < 0.12 else round(10 ** rng.uniform(-2, 2), 4) for _ in range(k + 1)]
+    if sum(1 for v in n[:k] if v) < 1: n[0] = 1.0
+    return {'t': 'hist', 'names': names, 'extra': extra, 'src': src, 'refs0': refs0, 'steps': steps, 'n': n, 'T': round(rng.uniform(280, 400), 2), 'P': rng.choice([5e4, 101325., 5e5]),
+            'phases': rng.sample(['l', 'g'], 2) + (['s'] if rng.random() < 0.3 else []), 'Ts': [round(T, 3) for T in sorted(rng.uniform(260, 480) for _ in range(4))]}
+
+
 def gen_cases(rng, tier):
     cases = []
     names = list(DB)
@@ -671,6 +941,9 @@ def gen_cases(rng, tier):
         Ts = sorted(rng.uniform(260, 480) for _ in range(4))
         cases.append({'t': 'dbx', 'cas': rng.choice(pool), 'ref': rng.choice('lgs'), 'fr': [round(rng.random(), 4) for _ in range(3)], 'Ts': [round(T, 3) for T in Ts],
                       'Ps': sorted(round(10 ** rng.uniform(0, 8), 2) for _ in range(3))})
+    # histories: packages built and re-built around modifications of their member chemicals (generated last: the earlier case streams are unchanged)
+    for _ in range(120 if tier == 'quick' else 1200):
+        cases.append(gen_hist(rng))
     return cases
 
 
@@ -688,7 +961,7 @@ def wide_pool():
 def run_case(case, rec):
     rec.begin_case(case)
     try:
-        {'db': run_db, 'syn': run_synth, 'mix': run_mix, 'lock': run_lock, 'mixlock': run_mixlock, 'cycle': run_cycle, 'dbx': run_dbx}[case['t']](case, rec)
+        {'db': run_db, 'syn': run_synth, 'mix': run_mix, 'lock': run_lock, 'mixlock': run_mixlock, 'cycle': run_cycle, 'dbx': run_dbx, 'hist': run_hist}[case['t']](case, rec)
     except Exception as e:
         rec.exception('harness', e, what=f'harness error in {case["t"]}: {type(e).__name__}: {e}')
 
